@@ -56,6 +56,13 @@ def rich_tree(rng, hostile=True, n_hostile=8, umn=True, mtime=1_700_000_000):
             t.append({"path": "odd/" + nm, "data": "content of " + nm + "\n"})
         t.append({"path": "odd/dir with space", "kind": "dir"})
         t.append({"path": "odd/dir with space/in&side.txt", "data": "inside\n"})
+        # names that collide with in-band prefixes the protocols use
+        t.append({"path": "GEMINI-QUERY.txt", "data": "not a query\n"})
+        t.append({"path": "GEMINI-QUERYdir", "kind": "dir"})
+        t.append({"path": "GEMINI-QUERYdir/inner.txt", "data": "inner\n"})
+        t.append({"path": "wapfile.txt", "data": "not the wap prefix\n"})
+        t.append({"path": "PYGOPHERD-HTTPPROTO-ICONS", "kind": "dir"})
+        t.append({"path": "PYGOPHERD-HTTPPROTO-ICONS/readme.txt", "data": "icons?\n"})
     for e in t:
         e["mtime"] = mtime
     return t
